@@ -193,6 +193,7 @@ R.loop("Node._flag_connection_as_ready", 2,
 
 del R.contracts["Node.close_connection_socket"]
 R.contract("Node.close_connection_socket", params={"self": "Node", "conn": "PeerConnection", "disconnect_reason": "int"},
+           ghost={"gs": "Socket"},
            ghost_modifies=["conn.g_close_calls", "conn.g_close_reason"],
            ghost_ensures=["conn.g_close_calls == old(conn.g_close_calls) + 1", "conn.g_close_reason == disconnect_reason"],
            ensures=[("nothing-sent", "nothing_sent(conn)"),
@@ -200,6 +201,8 @@ R.contract("Node.close_connection_socket", params={"self": "Node", "conn": "Peer
                     ("registered-socket-closed-and-workers-stopped",
                      "implies(old(conn.ident in self.peer_sockets), old(self.peer_sockets[conn.ident]).closed and "
                      "conn.state == %d and workers_stopped(conn))" % CLOSED),
+                    ("never-reopens-a-socket-or-restarts-a-worker",
+                     "implies(old(gs.closed), gs.closed) and implies(old(workers_stopped(conn)), workers_stopped(conn))"),
                     ("unregistered-connection-keeps-its-state",
                      "implies(not old(conn.ident in self.peer_sockets), conn.state == old(conn.state))"),
                     ("pending-answers-dropped", "not (conn.host_identity in self._peer_waiting_answer)")],
